@@ -209,3 +209,24 @@ def RESOF(x):
     for k in range(30):
         r = k if low == MARKER(k) else r
     return r
+
+
+# ---------------------------------------------------------------------------------------------
+# curve index <-> lattice position (C18).  Tri(f): the triangle (IJ coordinates) that a cell with flip state f and
+# all of its descendants occupy, given by three affine functionals that vanish on its edges and are positive inside;
+# for a triangle scaled by S the constant 2 becomes 2*S.  Read off the child offsets of quaternary_to_kj.
+
+def TRI_FUNCTIONALS(fx, fy, u, v, S):
+    if fx == 1 and fy == 1:
+        return (u, v, 2 * S - (u + v))
+    if fx == -1 and fy == 1:
+        return (u, v + 2 * S, 0 - (u + v))
+    if fx == 1 and fy == -1:
+        return (0 - u, 2 * S - v, u + v)
+    return (0 - u, 0 - v, 2 * S + (u + v))
+
+
+def IN_INSET_TRI(fx, fy, u, v, S, eps):
+    """(u, v) lies in S*Tri(f), at least eps away from every edge (in the functionals' units)."""
+    L = TRI_FUNCTIONALS(fx, fy, u, v, S)
+    return L[0] >= eps and L[1] >= eps and L[2] >= eps
